@@ -4,8 +4,9 @@
 (* Events: begin / ret of every public call, act (a queued action runs), stuck (thread blocked for ever),     *)
 (* end.  The effect points of the calls are not observable: TLC searches them (silent steps, only directly     *)
 (* before a ret / act / stuck / end event - effect points commute with begin events).                          *)
-(* Named deviations of the pinned code (only with AllowDev = TRUE, second pass over rejected traces; a trace   *)
-(* that needs one is reported, never silently accepted):                                                       *)
+(* Named deviations: what the code did before the repairs b07a78a / 520ac94 / cc1957e (only with AllowDev =     *)
+(* TRUE, second pass over rejected traces; a trace that needs one is reported, never silently accepted - with   *)
+(* the findings fixed it is a VIOLATION):                                                                        *)
 (*   Dev_IterRace           wait / waiting_for / deadline raise RuntimeError (set changed size during          *)
 (*                          iteration) when another thread creates / sets / clears a sub-event meanwhile       *)
 (*   Dev_HalfCreated        ... raise AttributeError when another thread is inside new() (the sub-event is     *)
